@@ -37,11 +37,19 @@ SHAPES = ["fresh", "extend-left-set", "extend-right-set", "merge", "redundant", 
 # ----------------------------------------------------------------------------------------------
 # rendering (trusted, no expected-value logic)
 
-KIND = {"p": ("", "v"), "f": ("flow ", "f"), "i": ("input ", "u"), "o": ("output ", "y"), "c": ("parameter ", "k")}
+KIND = {"p": ("", "v"), "f": ("flow ", "f"), "i": ("input ", "u"), "o": ("output ", "y"), "c": ("parameter ", "k"),
+        "s": ("", "")}       # "s": the connector itself is a scalar signal (connector Pin = Real)
 
 
 def varname(layout, j):
     return KIND[layout[j - 1]][1] + str(j)
+
+
+def flat_var(p, j, layout):
+    """name of connector variable j of port p in the flat class"""
+    if layout[j - 1] == "s":
+        return flat_port(p)
+    return flat_port(p) + "." + varname(layout, j)
 
 
 def flat_port(p):
@@ -62,10 +70,13 @@ def ref_in_scope(p, sc):
 
 def render(s):
     layout, ncomp, withleaf = s["layout"], s["ncomp"], s["withleaf"]
-    out = ["connector Pin"]
-    for j in range(1, len(layout) + 1):
-        out.append("  %sReal %s;" % (KIND[layout[j - 1]][0], varname(layout, j)))
-    out.append("end Pin;")
+    if list(layout) == ["s"]:
+        out = ["connector Pin = Real;"]
+    else:
+        out = ["connector Pin"]
+        for j in range(1, len(layout) + 1):
+            out.append("  %sReal %s;" % (KIND[layout[j - 1]][0], varname(layout, j)))
+        out.append("end Pin;")
     if withleaf:
         out += ["model Leaf", "  Pin x;", "  Pin y;", "end Leaf;"]
     for i in range(1, ncomp + 1):
@@ -207,7 +218,7 @@ def in_span(row, basis_rref, cols):
 def terms_to_row(terms, layout):
     r = {}
     for p, j, c in terms:
-        n = flat_port(p) + "." + varname(layout, j)
+        n = flat_var(p, j, layout)
         r[n] = r.get(n, 0) + Fraction(c)
     return {k: v for k, v in r.items() if v != 0}
 
@@ -271,10 +282,11 @@ def kinds_of(rows, layout):
     ks = set()
     names = {}
     for j in range(1, len(layout) + 1):
-        names[varname(layout, j)] = {"p": "potential", "i": "potential", "o": "potential", "f": "flow", "c": "parameter"}[layout[j - 1]]
+        names[varname(layout, j)] = {"p": "potential", "i": "potential", "o": "potential", "f": "flow", "c": "parameter",
+                                     "s": "potential"}[layout[j - 1]]
     for r in rows:
         for k in r:
-            ks.add(names.get(k.rsplit(".", 1)[-1], "other"))
+            ks.add("potential" if list(layout) == ["s"] else names.get(k.rsplit(".", 1)[-1], "other"))
     return sorted(ks)
 
 
@@ -290,7 +302,7 @@ def compare(s, obs, corrupt=None):
         got = corrupt(got)
     exp = [terms_to_row(t, layout) for t in s["rows"]]
     alt = [terms_to_row(t, layout) for t in s.get("alt") or []]
-    cols = sorted({k for r in got + exp + alt for k in r} | {flat_port(p) + "." + varname(layout, j)
+    cols = sorted({k for r in got + exp + alt for k in r} | {flat_var(p, j, layout)
                                                             for p in all_ports(s["ncomp"], s["withleaf"])
                                                             for j in range(1, len(layout) + 1)})
     R_got, R_exp = rref(got, cols), rref(exp, cols)
@@ -317,7 +329,7 @@ def compare(s, obs, corrupt=None):
             drifts.append("emitted equation list differs from the operational model (same solution space)")
     elif sorted(key(r) for r in em) != sorted(key(r) for r in got):
         drifts.append("emitted equation multiset differs from the operational model (same solution space)")
-    want_syms = {flat_port(p) + "." + varname(layout, j) for p in all_ports(s["ncomp"], s["withleaf"]) for j in range(1, len(layout) + 1)}
+    want_syms = {flat_var(p, j, layout) for p in all_ports(s["ncomp"], s["withleaf"]) for j in range(1, len(layout) + 1)}
     if set(obs["symbols"]) != want_syms:
         drifts.append("flat symbol set differs from the connector variables")
     return [], drifts
